@@ -144,6 +144,14 @@ func (s *spec) expr(e ast.Expr) string {
 				return a
 			}
 			return "(negb (gen_eqb " + a + " " + b + "))"
+		case token.GTR:
+			return "(Nat.ltb " + b + " " + a + ")"
+		case token.LSS:
+			return "(Nat.ltb " + a + " " + b + ")"
+		case token.GEQ:
+			return "(Nat.leb " + b + " " + a + ")"
+		case token.LEQ:
+			return "(Nat.leb " + a + " " + b + ")"
 		case token.LAND:
 			return "(" + a + " && " + b + ")"
 		case token.LOR:
@@ -161,6 +169,20 @@ func (s *spec) expr(e ast.Expr) string {
 	}
 	fail("expression %s", key)
 	return ""
+}
+
+// tryExpr: expr, but a refusal is reported instead of aborting the translation.
+func (s *spec) tryExpr(e ast.Expr) (out string, ok bool) {
+	defer func() {
+		if p := recover(); p != nil {
+			if _, is := p.(unsupported); is {
+				out, ok = "", false
+				return
+			}
+			panic(p)
+		}
+	}()
+	return s.expr(e), true
 }
 
 // block translates stmts followed by the continuation `rest` (a Gallina expression over the tracked names).
@@ -228,7 +250,21 @@ func (s *spec) block(stmts []ast.Stmt, rest string) string {
 		if len(x.Lhs) == 1 && len(x.Rhs) == 1 && (x.Tok == token.ASSIGN || x.Tok == token.DEFINE) {
 			lhs := src(x.Lhs[0])
 			if s.ignoreLHS[lhs] {
-				return s.block(tail, rest)
+				// bookkeeping outside the decision - but if its value can be expressed, later statements may read it
+				val, ok := s.tryExpr(x.Rhs[0])
+				if !ok {
+					return s.block(tail, rest)
+				}
+				name := "loc_" + strings.NewReplacer(".", "_", "(", "_", ")", "_").Replace(lhs)
+				old, had := s.params[lhs]
+				s.params[lhs] = name
+				body := s.block(tail, rest)
+				if had {
+					s.params[lhs] = old
+				} else {
+					delete(s.params, lhs)
+				}
+				return "(let " + name + " := " + val + " in " + body + ")"
 			}
 			for _, v := range s.vars {
 				if v.goExpr == lhs {
@@ -487,6 +523,36 @@ func generate(dir string) (string, []*result, error) {
 		lit := closureArg(fd, "withInflightLock")
 		if lit == nil {
 			fail("no single closure passed to withInflightLock")
+		}
+		// the flag is false when the region starts: `becameHealthy := false` (or `var becameHealthy bool`) ahead of the closure
+		declared := false
+		for _, st := range fd.Body.List {
+			if st.Pos() > lit.Pos() {
+				break
+			}
+			switch x := st.(type) {
+			case *ast.AssignStmt:
+				if len(x.Lhs) == 1 && len(x.Rhs) == 1 && src(x.Lhs[0]) == "becameHealthy" && src(x.Rhs[0]) == "false" {
+					declared = true
+				}
+			case *ast.DeclStmt:
+				if gd, ok := x.Decl.(*ast.GenDecl); ok {
+					for _, sp := range gd.Specs {
+						if vs, ok := sp.(*ast.ValueSpec); ok && len(vs.Values) == 0 {
+							for _, n := range vs.Names {
+								if n.Name == "becameHealthy" {
+									if id, ok := vs.Type.(*ast.Ident); ok && id.Name == "bool" {
+										declared = true
+									}
+								}
+							}
+						}
+					}
+				}
+			}
+		}
+		if !declared {
+			fail("becameHealthy is not declared false ahead of the locked region")
 		}
 		s := &spec{name: r1.Name, vars: []tvar{{"t.state", "st"}, {"becameHealthy", "bh"}}, params: map[string]string{param: "success"},
 			ignoreLHS: map[string]bool{"previousState": true, "newState": true}, ignoreCall: map[string]bool{"verifEvent": true}, consts: consts}
